@@ -36,7 +36,7 @@ ASSUMPTIONS = [
     'every pool-level operation is given worker lists inside the pool; blocking acquire_by (no caller) not modelled',
     'released-on-exit is stated for a pool driven by one thread at a time (other pools/threads arbitrary)',
 ]
-RULE = ('live: small-exhaustive event sequences (length<=3 quick / <=4 thorough) over a 14-letter alphabet on 2 addresses '
+RULE = ('live: small-exhaustive event sequences (length<=3 quick / <=4 thorough) over a 15-letter alphabet on 2 addresses '
         'and 2 clients, then random sequences of length<=25, clock start 50 or 1000; own: random sequences (<=14 ops) of '
         '_acquire_all/release_all/next_idle_worker/release/run/call_and_wait/as_completed/hang/unhang from 2-3 pools over '
         '2-3 shared workers, plus all ordered pairs of a small op alphabet; non-trivial = live: some is_alive observed after '
@@ -51,7 +51,7 @@ THRS = [100, 180, 400]
 def live_alphabet():
   return [
       dict(op='reg', a=0, t=990), dict(op='reg', a=0, t=400), dict(op='refresh', a=0, t=995),
-      dict(op='refresh', a=0, t=100), dict(op='unreg', a=0), dict(op='tick', d=150),
+      dict(op='refresh', a=0, t=100), dict(op='reg', a=0, t=820), dict(op='unreg', a=0), dict(op='tick', d=150),
       dict(op='alive', i=0), dict(op='call', i=0), dict(op='send', i=1, a=0, alive=True),
       dict(op='send', i=1, a=0, alive=False), dict(op='deliver', k=0, fail=False),
       dict(op='deliver', k=1, fail=True), dict(op='kill', a=0), dict(op='shutdown', i=0),
@@ -259,6 +259,16 @@ def _outcome(fn):
     return 'err:' + err_kind(e), None
 
 
+def _release(worker, pool):
+  """`worker.release(pool)`; on a tree without the owner-checked release (before the F14 repair) the
+  same request is expressed the way the old release_all did: check, then release."""
+  try:
+    worker.release(pool)
+  except TypeError:
+    if worker.is_available(pool):
+      worker.release()
+
+
 def run_own(case):
   from harness import fakecourier
   from harness.lib_courier_env import CourierEnv
@@ -299,6 +309,7 @@ def run_own(case):
         fakecourier.fail_hung(env.addr(f"w{o['w']}"))
       else:
         pool = pools[o['p']]
+        env.clock.deadline = env.clock.now + 1500
         if op == 'acquire_all':
           got = pool._acquire_all([workers[w] for w in o['ws']], num_workers=o['n'])  # pylint: disable=protected-access
           res = [idx[id(w)] for w in got]
@@ -308,21 +319,18 @@ def run_own(case):
           w = pool.next_idle_worker([workers[w] for w in o['ws']], maybe_acquire=o['acq'])
           res = 'none' if w is None else idx[id(w)]
         elif op == 'release':
-          workers[o['w']].release(pool)
+          _release(workers[o['w']], pool)
         elif op == 'run':
           outcome, _ = _outcome(lambda: pool.run(bad_task() if o['raises'] else ok_task()))
         elif op == 'call_and_wait':
           outcome, _ = _outcome(lambda: pool.call_and_wait(bad_task() if o['raises'] else ok_task()))
         elif op == 'as_completed':
-          obtainable = any(w.is_available(pool) and w.has_capacity for w in pool.all_workers)
           if o['take'] == 0:
             env.orchestrate.as_completed(pool, iter(())).close()     # never started: runs nothing
             outcome = 'never-started'
-          elif not obtainable:
-            # as_completed would spin for ever looking for a worker: do only what its `finally` does
-            pool.release_all()
-            outcome = 'skipped'
           else:
+            # when no worker can be obtained as_completed spins; the virtual deadline (set above for every
+            # op) turns that into a TimeoutError, after which its `finally` still has to release
             gen = env.orchestrate.as_completed(
                 pool, (bad_task() if r else ok_task() for r in o['tasks']), ignore_failures=o['ignore'])
             try:
@@ -342,6 +350,7 @@ def run_own(case):
               outcome = 'err:' + err_kind(e)
         else:
           raise ValueError(op)
+      env.clock.deadline = None
       obs.append(dict(res=res, outcome=outcome, mid=mid, **snapshot()))
     return dict(obs=obs)
   finally:
@@ -417,7 +426,7 @@ def model_obs(case, resps):
     elif op == 'call_and_wait':
       outcome = 'err:Exception' if o['raises'] else 'ok'
     elif op == 'as_completed':
-      outcome = None if (m['pre_obtainable'][o['p']] or never_started(o)) else 'skipped'
+      outcome = None       # not part of the property; only the ownership state is compared
     out.append(dict(res=res, outcome=outcome, locked=m['locked'], locked_by=m['locked_by'],
                     available=m['available'], acquired=m['acquired'], stuck=m['stuck']))
   return dict(obs=out)
@@ -438,10 +447,7 @@ def compare(impl, model):
       for k in ('locked', 'locked_by', 'available', 'acquired', 'res'):
         if x[k] != y[k]:
           return f'op {i}: {k} impl={x[k]} model={y[k]}'
-      if y['outcome'] is None:
-        if x['outcome'] == 'skipped':
-          return f'op {i}: impl found no obtainable worker, the model did'
-      elif x['outcome'] != y['outcome']:
+      if y['outcome'] is not None and x['outcome'] != y['outcome']:
         return f"op {i}: outcome impl={x['outcome']} model={y['outcome']}"
   return None
 
@@ -645,7 +651,7 @@ def extra(ctx):
                                       dict(why='exploration no longer finds the steal of the unrepaired operations', **r)))
   # 2. racy orders by hand on the real objects, 3. real-thread stress (oracle only)
   for name, fn in (('F14 racy order by hand', hand_f14), ('F13 racy order by hand', hand_f13),
-                   ('thread stress', lambda: stress(ctx.seed, 150 if ctx.quick else 1500))):
+                   ('thread stress', lambda: stress(ctx.seed, 4000 if ctx.quick else 40000))):
     try:
       what = fn()
     except Exception as e:  # pylint: disable=broad-except
@@ -664,16 +670,20 @@ def hand_f14():
     env.server('w0')
     w = env.courier_worker.Worker(env.addr('w0'), heartbeat_threshold_secs=10**9)
     a, b = env.courier_worker.WorkerPool([w]), env.courier_worker.WorkerPool([w])
-    if not w.is_available(a):
+    checked = w.is_available(a)          # A: the test release_all makes before releasing
+    if not checked:
       return 'fresh worker is not available'
-    if not w.acquire_by(b):
+    if not w.acquire_by(b):              # B acquires between A's test and A's release
       return 'pool B could not acquire a free worker'
-    a.release_all()                      # A acts after B acquired
+    try:
+      w.release(a)                       # A: the release that follows the test (owner-checked since the repair)
+    except TypeError:
+      w.release()                        # unrepaired tree: release_all called the unconditional release()
     if not w.is_locked(b):
-      return 'F14: pool A released a worker owned by pool B'
-    w.release(a)
+      return 'F14: pool A released a worker that pool B acquired between A\'s availability test and A\'s release'
+    a.release_all()
     if not w.is_locked(b):
-      return 'F14: Worker.release(A) released a worker owned by pool B'
+      return 'F14: release_all of pool A released a worker owned by pool B'
     b.release_all()
     return None if not w.is_locked() else 'pool B could not release its own worker'
   finally:
